@@ -243,6 +243,19 @@ def rule_child(ctx, rep, rid="C16.child", callrcu_only=False):
         st = [s for s in pat.stores(c, "call_rcu_data.flags") if ir.const_of(c, s.args[0]) == FLG.STOPPED]
         rep.must_pass(rid, fl + ".STOPPED≺free", c, [c.entry()], fr, lambda i: i in st, include_start=True,
                       what="each stale helper is marked STOPPED before being freed (no waiting for a thread that does not exist)")
+        # the per-CPU helper array and its length word are one piece of state: `length != 0` means `array allocated` to alloc_cpu_call_rcu_data(),
+        # so whoever drops the array resets the length - or the child can never create / look up a per-CPU helper again
+        m_ = ctx.mod(F.lib, "perfn")
+        lenrd = any(l for g_ in m_.defined() for l in pat.loads(g_, glob="cpus_array_len"))
+        nul = [s_ for s_ in pat.stores(c, glob="per_cpu_call_rcu_data") if ir.const_of(c, s_.args[0]) == 0 or ir.expr(c, s_.args[0], 2) == ("null",)]
+        if nul and lenrd:
+            z = [s_ for s_ in pat.stores(c, glob="cpus_array_len") if ir.const_of(c, s_.args[0]) == 0]
+            if not z:
+                rep.bad(rid, fl + ".percpu-array-and-length", "the child frees and clears per_cpu_call_rcu_data but leaves cpus_array_len set: alloc_cpu_call_rcu_data() takes the array for allocated - "
+                        "create_all_cpu_call_rcu_data() / set_cpu_call_rcu_data() fail and get_cpu_call_rcu_data() finds nothing in the child for ever", [nul[0].where()])
+            else:
+                okp = all(c.reach([c.entry()], [n_], avoid=lambda i: i in z, include_start=True)[0] is None or c.reach([n_], None, avoid=lambda i: i in z, stop_at_exit=True)[0] is None for n_ in nul)
+                rep.check(okp, rid, fl + ".percpu-array-and-length", "cpus_array_len is reset on every path that drops the per-CPU array", "a path drops the per-CPU array without resetting cpus_array_len", [nul[0].where()])
         dn = [s for s in pat.stores(c, glob="default_call_rcu_data") if ir.const_of(c, s.args[0]) == 0]
         gd = pat.calls(c, F.pfx + "_get_default_call_rcu_data")
         if not dn or not gd:
